@@ -75,6 +75,7 @@ func runRemote(o *opts) {
 		var pool [][]byte
 		nst := 1 + rr.intn(3)
 		var stages []string
+		hasWide := false
 		mk := func(name, art string, isDir bool, ins []Art) {
 			abs := filepath.Join(p.Root, art)
 			if isDir {
@@ -82,6 +83,17 @@ func runRemote(o *opts) {
 				// identical names in different directories, duplicate contents
 				t.set("same", nDir(Ent{"x", nFile([]byte("dup"))}))
 				t.set("same2", nDir(Ent{"x", nFile([]byte("dup"))}))
+				if rr.chance(1, 5) {
+					// more objects at one level than any worker pool, and not a multiple of its size
+					wide := &Node{Kind: "d"}
+					nw := 65 + rr.intn(80)
+					for k := 0; k < nw; k++ {
+						wide.Ents = append(wide.Ents, Ent{fmt.Sprintf("w%03d", k), nFile([]byte(fmt.Sprintf("wide %d %d", i, k)))})
+					}
+					t.set("wide", wide)
+					hasWide = true
+					s.count("wide-directory")
+				}
 				materialize(abs, t, p.CacheDir)
 			} else {
 				must(os.WriteFile(abs, genContent(rr, &pool), 0o644))
@@ -184,6 +196,9 @@ func runRemote(o *opts) {
 		}
 		// wipe an arbitrary subset of the local cache, then fetch
 		wipe := rr.intn(3) // 0 all, 1 random half, 2 none
+		if hasWide {
+			wipe = 0
+		}
 		for _, ob := range ref.Cache {
 			if wipe == 0 || (wipe == 1 && rr.chance(1, 2)) {
 				os.Remove(cachePathOf(p.CacheDir, ob.Digest))
